@@ -3,6 +3,7 @@ import PfVerif.Driver.C12
 import PfVerif.Driver.C20
 import PfVerif.Driver.BS
 import PfVerif.Driver.Hedge
+import PfVerif.Driver.Risk
 namespace PfVerif.Driver
 open Lean
 
@@ -25,6 +26,12 @@ def dispatch (op : String) (j : Json) : R Json :=
   | "ww_full" => opWwFull j
   | "feat" => opFeat j
   | "hedge" => opHedge j
+  | "es" => opEs j
+  | "var" => opVar j
+  | "erm" => opErm j
+  | "iso" => opIso j
+  | "qcvar" => opQcvar j
+  | "oce" => opOce j
   | _ => .error s!"unknown op {op}"
 
 end PfVerif.Driver
